@@ -25,9 +25,14 @@ import DesperModel.Proto
   nothing, `switch(...)`, `raise SwitchWorld(...)`, `quit_loop()`, `quit_loop(h())`, `raise Quit`,
   `raise Other`.  Re-entrancy (a callback that switches, whose on_switch_out callback quits, ...)
   is real recursion bounded by a fuel that stands for "the user's callbacks terminate".
-  The clock is a finite list of readings (one per frame, with that frame's script); the time
-  function of the scenario raises `ClockExhausted` when the list is used up, which ends the run
-  like any other exception — so the loop itself is a structural recursion over the frame list.
+  The clock is a finite list of frames (one per iteration, with that iteration's script); a frame
+  carries the reading of each of the scenario's two time functions and `St.clock` says which of
+  them is `loop.time_function` now; the time functions raise `ClockExhausted` when the list is used
+  up, which ends the run like any other exception — so the loop itself is a structural recursion
+  over the frame list.  Processors (plain ones and coroutine steps) may, besides user code, call
+  the public API of the running loop without raising (`PAct`): `loop.switch(handle, cc, cn)` — the
+  method itself: the frame goes on, the next iteration processes the new current world —,
+  `loop.time_function = …` and reading `loop.current_world`.
 -/
 namespace Desper.Loop
 open Desper
@@ -80,6 +85,16 @@ inductive Act where
   | raiseOther
 deriving DecidableEq, Repr, Inhabited
 
+/-- what a processor (plain or coroutine step) does in a frame: user code as above, or a call of the
+public API of the running loop that does not raise: `loop.switch(handle, cc, cn)` (the method),
+`loop.time_function = <clock k>`, reading `loop.current_world` -/
+inductive PAct where
+  | user (a : Act)
+  | loopSwitch (h : Handle) (cc cn : Bool)
+  | setClock (k : Nat)
+  | peek
+deriving DecidableEq, Repr, Inhabited
+
 inductive ProcKind where
   | plain | update | coro
 deriving DecidableEq, Repr, Inhabited
@@ -98,13 +113,20 @@ inductive Entry where
   | proc (i : Inst) (p : Nat) (dt : Int)
   /-- model-only marker: `Loop.switch` made `i` the current world -/
   | enter (i : Inst)
+  /-- the loop read its (current) time function and got `r` -/
+  | tick (r : Int)
+  /-- a processor read `loop.current_world` -/
+  | peek (cur : Option Inst)
   | ret (o : Outcome) (running : Bool) (cur : Option Inst) (h : Option Handle)
   | res (o : Outcome) (cur : Option Inst) (h : Option Handle)
 deriving DecidableEq, Repr, Inhabited
 
+/-- one iteration's worth of scenario: what the time function number 0 (`reading`) and number 1
+(`alt`) return when the loop reads the clock, and what processor 0, 1, .. does -/
 structure Frame where
   reading : Int
-  acts : List Act
+  alt : Int
+  acts : List PAct
 deriving DecidableEq, Repr, Inhabited
 
 structure Universe where
@@ -127,6 +149,8 @@ structure St where
   currentHandle : Option Handle := none
   running : Bool := false
   last : Option Int := none
+  /-- which of the scenario's time functions is `loop.time_function` -/
+  clock : Nat := 0
   delivered : Nat := 0
   /-- newest first -/
   log : List Entry := []
@@ -241,41 +265,6 @@ def markDead (s : St) (i : Inst) (p : Nat) : St :=
   | none => s
   | some w => setWorld s i { w with dead := p :: w.dead }
 
-/-- `Processor.process(dt)` of processor number `p` of instance `i`: the scenario's processors log
-the call, then a plain processor performs the frame's action, an `OnUpdateProcessor`
-(logic/__init__.py:333-341) dispatches `on_update(dt)`, a `CoroutineProcessor` advances its
-generator by one step (the step performs the action; an exception ends the generator for good). -/
-def runProc (U : Universe) (fuel : Nat) (s : St) (i : Inst) (dt : Int) (p : Nat) (k : ProcKind)
-    (a : Act) : St × Outcome :=
-  let s := { s with log := .proc i p dt :: s.log }
-  match k with
-  | .plain => act U fuel s a
-  | .update => dispatch U fuel s i .update (.dt dt)
-  | .coro =>
-    match s.worlds i with
-    | none => (s, .raised .noWorld)
-    | some w =>
-      if w.dead.contains p then (s, .ok)
-      else
-        match act U fuel s a with
-        | (s', .ok) => (s', .ok)
-        | (s', .outOfFuel) => (s', .outOfFuel)
-        | (s', o) => (markDead s' i p, o)
-
-/-- `for processor in self._sorted_processors: processor.process(dt)` logic/world.py:512-513 -/
-def runProcs (U : Universe) (fuel : Nat) (i : Inst) (dt : Int) :
-    St → Nat → List ProcKind → List Act → St × Outcome
-  | s, _, [], _ => (s, .ok)
-  | s, p, k :: ks, acts =>
-    match runProc U fuel s i dt p k (acts.headD .none) with
-    | (s', .ok) => runProcs U fuel i dt s' (p + 1) ks acts.tail
-    | r => r
-
-/-- `World.process(dt)` logic/world.py:503-513 (no dead entities in these scenarios) -/
-def processWorld (U : Universe) (fuel : Nat) (s : St) (i : Inst) (dt : Int) (acts : List Act) :
-    St × Outcome :=
-  runProcs U fuel i dt { s with log := .frame i dt :: s.log } 0 (U.procs i.h) acts
-
 /-- `Loop.switch` -/
 def loopSwitch (U : Universe) (s : St) (h : Handle) (cc cn : Bool) : St :=
   let s1 := if cc then
@@ -316,6 +305,51 @@ def simpleSwitch (U : Universe) (fuel : Nat) (s : St) (h : Handle) (cc cn : Bool
   let (s2, i) := callHandle U s1 h
   enable U fuel s2 i
 
+/-- a processor's action: user code, or a non-raising call of the loop's public API -/
+def pact (U : Universe) (fuel : Nat) (s : St) : PAct → St × Outcome
+  | .user a => act U fuel s a
+  -- `loop.switch(handle, cc, cn)` called directly: no exception, the frame goes on
+  | .loopSwitch h cc cn => simpleSwitch U fuel s h cc cn
+  -- `loop.time_function = clocks[k]`
+  | .setClock k => ({ s with clock := k }, .ok)
+  -- `loop.current_world` is read (and logged by the scenario's processor)
+  | .peek => ({ s with log := .peek s.current :: s.log }, .ok)
+
+/-- `Processor.process(dt)` of processor number `p` of instance `i`: the scenario's processors log
+the call, then a plain processor performs the frame's action, an `OnUpdateProcessor`
+(logic/__init__.py:333-341) dispatches `on_update(dt)`, a `CoroutineProcessor` advances its
+generator by one step (the step performs the action; an exception ends the generator for good). -/
+def runProc (U : Universe) (fuel : Nat) (s : St) (i : Inst) (dt : Int) (p : Nat) (k : ProcKind)
+    (a : PAct) : St × Outcome :=
+  let s := { s with log := .proc i p dt :: s.log }
+  match k with
+  | .plain => pact U fuel s a
+  | .update => dispatch U fuel s i .update (.dt dt)
+  | .coro =>
+    match s.worlds i with
+    | none => (s, .raised .noWorld)
+    | some w =>
+      if w.dead.contains p then (s, .ok)
+      else
+        match pact U fuel s a with
+        | (s', .ok) => (s', .ok)
+        | (s', .outOfFuel) => (s', .outOfFuel)
+        | (s', o) => (markDead s' i p, o)
+
+/-- `for processor in self._sorted_processors: processor.process(dt)` logic/world.py:512-513 -/
+def runProcs (U : Universe) (fuel : Nat) (i : Inst) (dt : Int) :
+    St → Nat → List ProcKind → List PAct → St × Outcome
+  | s, _, [], _ => (s, .ok)
+  | s, p, k :: ks, acts =>
+    match runProc U fuel s i dt p k (acts.headD (.user .none)) with
+    | (s', .ok) => runProcs U fuel i dt s' (p + 1) ks acts.tail
+    | r => r
+
+/-- `World.process(dt)` logic/world.py:503-513 (no dead entities in these scenarios) -/
+def processWorld (U : Universe) (fuel : Nat) (s : St) (i : Inst) (dt : Int) (acts : List PAct) :
+    St × Outcome :=
+  runProcs U fuel i dt { s with log := .frame i dt :: s.log } 0 (U.procs i.h) acts
+
 /-- the `except SwitchWorld` clause of `SimpleLoop.loop` (D25 repair: a callback released while
 a world is entered may request a switch itself; that request is served as well) -/
 def handleSwitch (U : Universe) (fuel : Nat) : Nat → St → Handle → Bool → Bool → St × Outcome
@@ -331,14 +365,20 @@ def dtOf (last : Option Int) (reading : Int) : Int :=
   | none => 0
   | some l => reading - l
 
-/-- one iteration of `while True:` in `SimpleLoop.loop` -/
+/-- what `self.time_function()` returns for this iteration: the reading of the installed clock -/
+def readingOf (c : Nat) (f : Frame) : Int := if c = 0 then f.reading else f.alt
+
+/-- `timestamp = self.time_function()` … `self.last_timestamp = timestamp` -/
+def tickSt (s : St) (r : Int) : St := { s with last := some r, log := .tick r :: s.log }
+
+/-- one iteration of `while True:` in `SimpleLoop.loop`: the clock that is installed *now* is read,
+`process` of the world that is current *now* is called -/
 def loopStep (U : Universe) (fuel : Nat) (s : St) (f : Frame) : St × Outcome :=
-  let dt := dtOf s.last f.reading
-  let s := { s with last := some f.reading }
+  let r := readingOf s.clock f
   match s.current with
-  | none => (s, .raised .attributeError)
+  | none => (tickSt s r, .raised .attributeError)
   | some i =>
-    match processWorld U fuel s i dt f.acts with
+    match processWorld U fuel (tickSt s r) i (dtOf s.last r) f.acts with
     | (s', .raised (.switch h cc cn)) => handleSwitch U fuel fuel s' h cc cn
     | r => r
 
@@ -402,6 +442,27 @@ def parseActs (toks : List String) : Option (List Act) :=
         | g :: gs => (t :: g) :: gs) [[]]
   (groups.filter (· ≠ [])).mapM parseAct
 
+def parsePAct : List String → Option PAct
+  | ["lswitch", h, cc, cn] => do some (.loopSwitch (← h.toNat?) (← bool? cc) (← bool? cn))
+  | ["setclock", k] => k.toNat?.map .setClock
+  | ["peek"] => some .peek
+  | toks => (parseAct toks).map .user
+
+/-- `pact ; pact ; pact` -/
+def parsePActs (toks : List String) : Option (List PAct) :=
+  let groups := toks.foldr (fun t acc =>
+      if t = ";" then [] :: acc else match acc with
+        | [] => [[t]]
+        | g :: gs => (t :: g) :: gs) [[]]
+  (groups.filter (· ≠ [])).mapM parsePAct
+
+/-- `r` or `r/alt` -/
+def parseReading (t : String) : Option (Int × Int) :=
+  match t.splitOn "/" with
+  | [r] => do let r ← r.toInt?; some (r, r)
+  | [r, a] => do some (← r.toInt?, ← a.toInt?)
+  | _ => none
+
 def parseKind : String → Option ProcKind
   | "p" => some .plain
   | "u" => some .update
@@ -433,6 +494,12 @@ def actHandles : Act → List Handle
   | .quitTo h => [h]
   | _ => []
 
+def pactOk (n : Nat) : PAct → Bool
+  | .user a => (actHandles a).all (· < n)
+  | .loopSwitch h _ _ => h < n
+  | .setClock k => k < 2
+  | .peek => true
+
 def parseLine (p : Parsed) (line : String) : Parsed :=
   match tokens line with
   | ["handle", h, pr, ld] =>
@@ -460,9 +527,9 @@ def parseLine (p : Parsed) (line : String) : Parsed :=
   -- computes in reading units over all of Int whatever the representation
   | ["clock", k] => if k = "f8" || k = "int" || k = "frac" then p else { p with bad := true }
   | "frame" :: r :: rest =>
-    match r.toInt?, parseActs rest, p.ops with
+    match parseReading r, parsePActs rest, p.ops with
     | some r, some acts, .start fs :: ops =>
-      { p with ops := .start ({ reading := r, acts := acts } :: fs) :: ops }
+      { p with ops := .start ({ reading := r.1, alt := r.2, acts := acts } :: fs) :: ops }
     | _, _, _ => { p with bad := true }
   | [] => p
   | _ => { p with bad := true }
@@ -485,7 +552,7 @@ def Parsed.wellFormed (p : Parsed) : Bool :=
   p.ops.all fun
     | .load h => h < n
     | .switch h _ _ => h < n
-    | .start fs => fs.all (fun f => f.acts.all okAct)
+    | .start fs => fs.all (fun f => f.acts.all (pactOk n))
 
 def showInst (i : Inst) : String := s!"{i.h}#{i.n}"
 def showOInst : Option Inst → String
@@ -529,6 +596,8 @@ def showEntry : Entry → String
   | .frame i dt => s!"frame {showInst i} {dt}"
   | .proc i p dt => s!"proc {showInst i} {p} {dt}"
   | .enter i => s!"enter {showInst i}"
+  | .tick r => s!"tick {r}"
+  | .peek c => s!"peek {showOInst c}"
   | .ret o r c h =>
     s!"ret {showOutcome o} running={showBool r} current={showOInst c} handle={showOHandle h}"
   | .res o c h => s!"res {showOutcome o} current={showOInst c} handle={showOHandle h}"
